@@ -127,6 +127,26 @@ func returnsError(b *ast.BlockStmt) bool {
 	return res
 }
 
+// hasTopLevelReturn: one of the statements (not nested in an if/for/switch) is a return, i.e. control never
+// reaches the end of the list.
+func hasTopLevelReturn(stmts []ast.Stmt) bool {
+	for _, s := range stmts {
+		switch x := s.(type) {
+		case *ast.ReturnStmt:
+			return true
+		case *ast.BlockStmt:
+			if hasTopLevelReturn(x.List) {
+				return true
+			}
+		case *ast.BranchStmt:
+			if x.Tok == token.GOTO || x.Tok == token.BREAK && x.Label != nil {
+				return true
+			}
+		}
+	}
+	return false
+}
+
 // firstStmtRejects: the statement list starts by returning a non-nil error.
 func firstStmtRejects(stmts []ast.Stmt) bool {
 	if len(stmts) == 0 {
@@ -564,6 +584,59 @@ func Emit(repo string) {
 	}
 	printCmp("commission_create_site", create)
 	printCmp("commission_edit_site", edit)
+
+	// does the loop over the message list go on after each clause?  (an unconditional `return` in a clause, or
+	// after the switch, ends the scan: later messages of the same list are never checked)
+	afterExec, afterCreate, afterEdit, afterOther, afterSwitch := false, false, false, false, false
+	if fd := findFunc(anteFiles, "AnteHandle", "AnteDecoratorStakingCommission"); fd != nil {
+		for _, f := range helperClosure(anteFiles, fd) {
+			ast.Inspect(f.Body, func(n ast.Node) bool {
+				rs, ok := n.(*ast.RangeStmt)
+				if !ok {
+					return true
+				}
+				for i, st := range rs.Body.List {
+					ts, ok := st.(*ast.TypeSwitchStmt)
+					if !ok {
+						continue
+					}
+					staking := false
+					for _, c := range ts.Body.List {
+						for _, e := range c.(*ast.CaseClause).List {
+							if typeName(e) == "stakingtypes.MsgCreateValidator" {
+								staking = true
+							}
+						}
+					}
+					if !staking {
+						continue
+					}
+					afterOther = true // no default clause: other messages fall out of the switch
+					for _, c := range ts.Body.List {
+						cc := c.(*ast.CaseClause)
+						goesOn := !hasTopLevelReturn(cc.Body)
+						if cc.List == nil {
+							afterOther = goesOn
+						}
+						for _, e := range cc.List {
+							switch typeName(e) {
+							case "stakingtypes.MsgCreateValidator":
+								afterCreate = goesOn
+							case "stakingtypes.MsgEditValidator":
+								afterEdit = goesOn
+							case "authz.MsgExec":
+								afterExec = goesOn
+							}
+						}
+					}
+					afterSwitch = !hasTopLevelReturn(rs.Body.List[i+1:])
+				}
+				return true
+			})
+		}
+	}
+	fmt.Printf("Definition commission_scan : scan_facts := {| s_after_exec := %s; s_after_create := %s; s_after_edit := %s; s_after_other := %s; s_after_switch := %s |}.\n",
+		CoqBool(afterExec), CoqBool(afterCreate), CoqBool(afterEdit), CoqBool(afterOther), CoqBool(afterSwitch))
 
 	// MAX_COMMISSION: `func MAX_COMMISSION() sdk.Dec { return math.LegacyMustNewDecFromStr("0.25") }`
 	raw := ""
